@@ -406,7 +406,22 @@ func specC13(r *hlib.Rng, res *hlib.Result) (string, []string) {
 	}
 	r1 := src.last
 	// The batch: arbitrary ops incl. remove-then-reinsert, insert-then-remove, equal overwrites.
-	for i := 0; i < 1+r.Intn(14); i++ {
+	// In a third of the cases on a database a Commit is REJECTED by the database in the middle of the
+	// batch (a version that does not follow the old root) and the same tree goes on and commits
+	// properly: the announced transition is still old root -> final root, with the complete log.
+	nops := 1 + r.Intn(14)
+	failAt := -1
+	if !io && src.ndb != nil && r.Chance(1, 3) {
+		failAt = r.Intn(nops)
+	}
+	for i := 0; i < nops; i++ {
+		if i == failAt {
+			if _, _, ferr := src.tree.Commit(ctx, testNs, src.version+3); ferr == nil {
+				return "spec-c13-error: a commit into a version that does not follow the old root was accepted", trace
+			}
+			trace = append(trace, fmt.Sprintf("commit-at-version %d (rejected by the database)", src.version+3))
+			res.Count("spec:c13-rejected-commit-then-retry")
+		}
 		k := pool[r.Intn(len(pool))]
 		switch x := r.Intn(10); {
 		case x < 5:
